@@ -383,4 +383,7 @@ def call_ext(eng, mod, name, args, kwargs, st, node):
         r = h(eng, mod, name, args, kwargs, st, node)
         if r is not None:
             return r
+    if ('%s.%s' % (mod, name)) in eng.contract.opts.get('opaque_ext', ()):
+        st.trace.append(('ext', '%s.%s' % (mod, name), tuple(args)))
+        return [(st, V('obj', oid='new!%s.%s!%d' % (mod, name, next(eng.counter))))]
     raise Unsupported(node, 'external %s.%s' % (mod, name))
